@@ -266,6 +266,7 @@ package cli
 //@   loop 2 invariant rows: trace == optRowsT((len(c.args) > 0 ? argRowsT(headT(old(trace), ival(stdErr), strings_Join(old(c.parents) ++ seq(c.name), " "), c.Spec, len(c.commands), (longDesc && len(c.LongDesc) > 0) ? c.LongDesc : c.desc) ++ seq(evOut(w, fmt_sprint(seq(toIface("string", "\t\nArguments:\t\n"))))), w, c.args, len(c.args), fieldHeap(c.args[0].Name), fieldHeap(c.args[0].Desc), fieldHeap(c.args[0].EnvVar), fieldHeap(c.args[0].HideValue), fieldHeap(c.args[0].DefaultValue)) : headT(old(trace), ival(stdErr), strings_Join(old(c.parents) ++ seq(c.name), " "), c.Spec, len(c.commands), (longDesc && len(c.LongDesc) > 0) ? c.LongDesc : c.desc)) ++ seq(evOut(w, fmt_sprint(seq(toIface("string", "\t\nOptions:\t\n"))))),
 //@       w, c.options, $k, fieldHeap(c.args[0].Names), fieldHeap(c.args[0].Name), fieldHeap(c.args[0].Desc), fieldHeap(c.args[0].EnvVar), fieldHeap(c.args[0].HideValue), fieldHeap(c.args[0].DefaultValue))
 //@   loop 3 step filtered: commands == (c.Hidden ? startVal(3, commands) : startVal(3, commands) ++ seq(c))
+//@   loop 3 step init-ok: callOK("doInit", len(startTrace(3)))
 //@   loop 4 step row: trace == startTrace(4) ++ seq(evOut(w, fmt_sprintf("  %s\t%s\n", seq(toIface("string", strings_Join(c.aliases, ", ")), toIface("string", c.desc)))))
 //@   loop 1 invariant no-flow: noFlow(old(trace), trace)
 //@   loop 2 invariant no-flow: noFlow(old(trace), trace)
@@ -274,6 +275,22 @@ package cli
 //@   loop 3 invariant listed: forall i int :: {commands[i]} 0 <= i && i < len(commands) ==> commands[i] != nil
 //@   loop 3 invariant wf: allCmdWF(fieldHeap(c.options), fieldHeap(c.args), fieldHeap(c.commands), fieldHeap(c.optionsIdx), fieldHeap(c.argsIdx))
 //@   loop 4 invariant no-flow: noFlow(old(trace), trace)
+
+// PrintHelp / PrintLongHelp (C14, C17): the short and the long form of the same printer
+//@ func (*Cmd).PrintHelp
+//@   requires recv: c != nil
+//@   requires names: noHelpNames(fieldHeap(c.aliases))
+//@   requires wf: allCmdWF(fieldHeap(c.options), fieldHeap(c.args), fieldHeap(c.commands), fieldHeap(c.optionsIdx), fieldHeap(c.argsIdx))
+//@   maypanic
+//@   ensures short-form: len(trace) > len(old(trace)) && trace[len(old(trace))] == evMark("printHelp", c, false) && noFlow(old(trace), trace) &&
+//@       callEnd("printHelp", len(old(trace))) == len(trace)
+//@ func (*Cmd).PrintLongHelp
+//@   requires recv: c != nil
+//@   requires names: noHelpNames(fieldHeap(c.aliases))
+//@   requires wf: allCmdWF(fieldHeap(c.options), fieldHeap(c.args), fieldHeap(c.commands), fieldHeap(c.optionsIdx), fieldHeap(c.argsIdx))
+//@   maypanic
+//@   ensures long-form: len(trace) > len(old(trace)) && trace[len(old(trace))] == evMark("printHelp", c, true) && noFlow(old(trace), trace) &&
+//@       callEnd("printHelp", len(old(trace))) == len(trace)
 
 // firstSub: the first declared subcommand having tok among its aliases (nil when there is none)
 //@ pure rec func firstSubFrom(c *Cmd, tok string, i int, SUBS array[*Cmd][]*Cmd, AL array[*Cmd][]string) *Cmd =
@@ -301,6 +318,14 @@ package cli
 //@   ensures help-here-first: h >= 0 && h < k ==> trace[p0] == evMark("printHelp", c, true)
 //@   ensures validated-first: h < 0 ==> len(trace) > p0 && trace[p0] == evMark("Parse", fsm0)
 //@   ensures rejected-runs-nothing: h < 0 && !callOK("Parse", p0) ==> result != nil && noRun(old(trace), trace) && isMark(trace[len(trace)-1], "onError")
+//@   ensures rejected-reports: h < 0 && !callOK("Parse", p0) ==> callEnd("Parse", p0) + 1 < len(trace) &&
+//@       trace[callEnd("Parse", p0)] == evOut(ival(stdErr), fmt_sprintf("Error: %s\n", seq(toIface("string", err_msg(result))))) &&
+//@       trace[callEnd("Parse", p0) + 1] == evMark("printHelp", c, false) &&
+//@       callEnd("printHelp", callEnd("Parse", p0) + 1) + 1 == len(trace)
+//@   ensures help-then-policy: h >= 0 && h < k ==> callEnd("printHelp", p0) + 1 == len(trace) && isMark(trace[len(trace)-1], "onError")
+//@   ensures no-action-prints-help: h < 0 && callOK("Parse", p0) && k == len(args) && old(c.Action) == nil ==>
+//@       callEnd("Parse", p0) < len(trace) && trace[callEnd("Parse", p0)] == evMark("printHelp", c, false) &&
+//@       callEnd("printHelp", callEnd("Parse", p0)) + 1 == len(trace) && isMark(trace[len(trace)-1], "onError")
 //@   ensures accepted-action: h < 0 && callOK("Parse", p0) && k == len(args) && old(c.Action) != nil ==> result == nil &&
 //@       p0 < callEnd("Parse", p0) && callEnd("Parse", p0) < len(trace) && trace[callEnd("Parse", p0)] == evMark("Run", entry)
 //@   ensures accepted-nothing-before: h < 0 && callOK("Parse", p0) && k == len(args) && old(c.Action) != nil ==>
